@@ -14,12 +14,14 @@ import (
 // End-to-end wiring: the plugin BINARY (cobra command, flag parsing, Docker client over HTTP, querier,
 // engine, renderer) is run against a fake daemon on a loopback port and compared with the composition of
 // the separately verified parts:
-//   flags       -> the Lean model (Flags.parseTimeRange / parseStep, driver ops `timerange`, `step`)
-//   evaluation  -> dockerlog.Querier over an in-process fake client + Engine.Eval with those parameters and
-//                  the --limit value (each tied to its model by C01-C08)
-//   rendering   -> renderResult through the verif hook with the --timestamp/--container/--color values (C15)
-//   daemon side -> the since/until/timestamps/stdout/stderr/tail options every selected container is asked
-//                  with (Docker.logsWindow: whole seconds of start and end)
+//
+//	flags       -> the Lean model (Flags.parseTimeRange / parseStep, driver ops `timerange`, `step`)
+//	evaluation  -> dockerlog.Querier over an in-process fake client + Engine.Eval with those parameters and
+//	               the --limit value (each tied to its model by C01-C08)
+//	rendering   -> renderResult through the verif hook with the --timestamp/--container/--color values (C15)
+//	daemon side -> the since/until/timestamps/stdout/stderr/tail options every selected container is asked
+//	               with (Docker.logsWindow: whole seconds of start and end)
+//
 // What remains to differ is the glue in queryCmd's RunE: which flag goes where.
 type e2eCase struct {
 	Ctrs      []c18Ctr   `json:"ctrs"`
@@ -251,9 +253,11 @@ func init() {
 				}
 				return out
 			},
-			Nontrivial:    func(t e2eCase, impl Sexp) bool { return len(t.Ctrs) > 0 },
-			PropertyFails: func(t e2eCase, impl, model Sexp) bool { return impl.Head() != "setup-error" && impl.Head() != "plugin-run-failed" },
-			Signature:     func(t e2eCase, impl, model Sexp) string { return "e2e:" + impl.Head() },
+			Nontrivial: func(t e2eCase, impl Sexp) bool { return len(t.Ctrs) > 0 },
+			PropertyFails: func(t e2eCase, impl, model Sexp) bool {
+				return impl.Head() != "setup-error" && impl.Head() != "plugin-run-failed"
+			},
+			Signature: func(t e2eCase, impl, model Sexp) string { return "e2e:" + impl.Head() },
 			Tags: func(t e2eCase, impl Sexp) []string {
 				form := "start+end"
 				if t.Since != "" {
